@@ -876,18 +876,37 @@ impl Xot {
                 "Cannot replace document node".to_string(),
             ));
         }
-        // there should always be a parent as we're not document node
-        let parent = self.parent(replaced_node).unwrap();
-        // record previous sibling
-        let previous_node = self.previous_sibling(replaced_node);
-        // remove the replaced node, use low-level remove_tree to avoid
-        // text node reconciliation and document element detection
+        if replaced_node == replacing_node {
+            return Ok(());
+        }
+        // validate the request before anything is changed
+        self.sibling_structure_check(replaced_node, replacing_node)?;
+        // put the replacing node in place of the replaced node using
+        // low-level operations, so that no text is consolidated into a node
+        // that is about to be removed
+        let old_previous = self.previous_sibling(replacing_node);
+        let old_next = self.next_sibling(replacing_node);
+        replacing_node.get().detach(self.arena_mut());
+        replaced_node
+            .get()
+            .checked_insert_before(replacing_node.get(), self.arena_mut())?;
         replaced_node.get().remove_subtree(self.arena_mut());
-        // now insert the replacing node
-        if let Some(previous_node) = previous_node {
-            self.insert_after(previous_node, replacing_node)?;
+        // consolidate text where the replacing node was taken out
+        if let (Some(old_previous), Some(old_next)) = (old_previous, old_next) {
+            if !self.is_removed(old_previous)
+                && !self.is_removed(old_next)
+                && self.next_sibling(old_previous) == Some(old_next)
+            {
+                self.remove_consolidate_text_nodes(Some(old_previous), Some(old_next));
+            }
+        }
+        // consolidate text around its new place
+        let previous_node = self.previous_sibling(replacing_node);
+        let next_node = self.next_sibling(replacing_node);
+        if self.remove_consolidate_text_nodes(previous_node, Some(replacing_node)) {
+            self.remove_consolidate_text_nodes(previous_node, next_node);
         } else {
-            self.prepend(parent, replacing_node)?;
+            self.remove_consolidate_text_nodes(Some(replacing_node), next_node);
         }
         Ok(())
     }
